@@ -25,7 +25,9 @@ EXPLANATION = (
     "C'_abcd = T_ia T_jb T_kc T_ld C_ijkl supplied, get_target_elastic_modulus returns exactly C_key; the components it asks "
     "for never include the target, are the ones the energy routine reads (sibling agreement), and in the rotated frame are "
     "all longitudinal/off-diagonal; the number of skipped target terms equals the key's multiplicity; strain_rotated is "
-    "diag(T^T diag(e) T) with the trace preserved.")
+    "diag(T^T diag(e) T) with the trace preserved (a shortcut taken on a tolerance test is followed both ways, with the tested equality "
+    "assumed of exactly the quantities compared). On probe strains with round-off-sized and near-tolerance entries the key routine and the "
+    "energy routine select the same entries (R03.10).")
 NOT_DECIDED = "floating-point accuracy of numpy's eigen-solver and of the energy sums."
 ASSUMPTIONS = ["T-LIB: numpy.linalg.eigh returns (ascending eigenvalues, orthonormal eigenvectors as columns); degenerate "
                "eigen-spaces get some orthonormal basis (the analysis uses one; the result is basis-independent by the lemma it verifies)",
